@@ -7,6 +7,12 @@ import os
 HERE = os.path.dirname(os.path.dirname(os.path.abspath(__file__)))
 
 TABLE = {
+    "C02": dict(
+        technique="model-based oracle: exhaustive enumeration of small expression trees + Hypothesis-generated trees, rendered in 3 parenthesisation modes x 12 contexts, compared with the grammar-derived expected AST",
+        text="Every expression tree with up to 2 (quick) / 3 (thorough) operator nodes over 54 operator kinds is rendered with minimal and full parentheses in 12 contexts and the parsed subtree must equal the tree derived from the C grammar; Hypothesis adds deeper random trees with redundant parentheses and every constant kind. Complete inside the enumerated bound, statistical beyond.",
+        note="Trusted: the independent expression model in vlib/cmodel.py (levels table, renderer, expected-AST builder), cross-checked by the renderer/expectation agreeing with the unchanged parser on > 200 000 cases.",
+        ref="DESIGN.md section 4, C02",
+    ),
     "C06": dict(
         technique="exhaustive enumeration of short token sequences + Hypothesis token-mutation and character-noise fuzzing, outcome-class oracle",
         text="Every token sequence up to length 3 (quick) / 4 and 5 over a reduced alphabet (thorough) after 8 context prefixes is parsed and its outcome classified; beyond that, Hypothesis mutates valid programs at token level and generates character noise. Complete inside the enumerated bound, statistical outside it; absence of crashes on longer inputs is not established.",
